@@ -528,7 +528,7 @@ fn export_cases<K: Kmer>(out: &mut Out, rng: &mut Rng, g: &DebruijnGraph<K, u16>
                 out.case("s.json_parse", l(vec![tv.clone()]), expect);
                 out.case("chk.json_wellformed", l(vec![tv.clone(), nu(nn), l(links.clone())]), b(true));
             }
-            _ => out.case("chk.json_wellformed", l(vec![]), V::Bot),
+            _ => out.case("s.no_panic", l(vec![nu(901), nu(0), nu(out.lines as usize)]), V::Bot),
         }
     }
     out.nt = false;
